@@ -402,6 +402,9 @@ def denial_sequence_legal(events, extension):
     return None
 
 
+_TMP = []
+
+
 def make_response(kind):
     if kind == "empty404":
         return Response(404)
@@ -411,6 +414,19 @@ def make_response(kind):
         return JSONResponse({"error": "denied"}, 401)
     if kind == "redirect":
         return RedirectResponse("/login")
+    if kind == "file":
+        # with the zero-copy extension a FileResponse emits http.response.zerocopysend events,
+        # which have no websocket denial counterpart
+        import os
+        import tempfile
+
+        fd, path = tempfile.mkstemp(prefix="verif_c11_", suffix=".txt")
+        os.write(fd, b"denied")
+        os.close(fd)
+        _TMP.append(path)
+        from baize.asgi import FileResponse
+
+        return FileResponse(path)
     if kind == "stream":
 
         async def gen():
@@ -446,9 +462,11 @@ def oracle_denial(case) -> Result:
         r.label("via=session-http")
         r.nontrivial = True
         return r
-    scope = {"type": "websocket", "path": "/", "headers": [], "subprotocols": []}
+    scope = {"type": "websocket", "path": "/", "headers": [], "subprotocols": [], "method": "GET"}
     if ext:
         scope["extensions"] = {"websocket.http.response": {}}
+    if kind == "file" and ext:
+        scope["extensions"]["http.response.zerocopysend"] = {}
     if via == "denial":
         app = WebsocketDenialResponse(make_response(kind))
     else:
@@ -457,8 +475,23 @@ def oracle_denial(case) -> Result:
         async def app(request):  # pragma: no cover - must not run
             raise core.HarnessError("http view ran for a websocket scope")
 
-    _run(app(scope, receive, send))
-    bad = denial_sequence_legal(sent, ext)
+    raised = None
+    try:
+        _run(app(scope, receive, send))
+    except (ValueError, OSError) as exc:
+        raised = exc  # an event that cannot be expressed as a denial response may be refused ...
+    foreign = [e.get("type") for e in sent if not str(e.get("type", "")).startswith("websocket.")]
+    if foreign:
+        # ... but it must never be forwarded to the websocket server as it is
+        r.fail(f"C11:denial:{via}:foreign-event-forwarded", f"{case!r}: forwarded {foreign!r} to a websocket connection; events {sent!r}")
+    import os as _os
+
+    while _TMP:
+        try:
+            _os.unlink(_TMP.pop())
+        except OSError:
+            pass
+    bad = None if (raised is not None and kind == "file") else denial_sequence_legal(sent, ext)
     if bad:
         r.fail(f"C11:denial:{via}:{'ext' if ext else 'noext'}", f"{case!r}: {bad}; events {sent!r}")
     r.label(f"via={via}", f"ext={ext}", f"resp={kind}")
@@ -533,7 +566,7 @@ def guided_case():
 
 
 def denial_cases():
-    for kind in ("empty404", "plain", "json", "redirect", "stream"):
+    for kind in ("empty404", "plain", "json", "redirect", "stream", "file"):
         for ext in (False, True):
             yield {"via": "denial", "response": kind, "extension": ext}
     for ext in (False, True):
